@@ -135,3 +135,7 @@ def run(repo: Repo, rep: Report, tier: str) -> None:
                         rep.ok(R2, f"{fi.key}:{short(node, 60)}", "Expression object stored on an array type: Expression is shared", fi.loc(node))
     rep.floor(R2, "Expression -> _make_array flows", flows, 1)
     rep.floor(R2, "per-call construction sites", n, 3)
+    from .c08 import generated_globals_rule
+
+    generated_globals_rule(repo, rep, "C15.R3")
+
